@@ -125,6 +125,25 @@ def directed_lifecycle_cases():
                         ops += pre
                     out.append({"tagA": 100 + n, "tagB": 5000 + n, "tsnA": 10 * n, "tsnB": 2**32 - 3 - n, "profile": "directed",
                                 "wrap": False, "ops": ops})
+    # handlers that create / close channels from inside events at the moments the transport itself walks its channel tables
+    # (association established: `open` of channels created before set-up; association closed: `close` of every channel)
+    for side in "AB":
+        for pre in (dict(label="neg", negotiated=True, id=44, ordered=True), dict(label="auto", ordered=True),
+                    dict(label="id", id=33 if side == "A" else 32, ordered=True)):
+            for act in (["create", dict(label="hid", id=55 if side == "A" else 54, ordered=True)],
+                        ["create", dict(label="hneg", negotiated=True, id=66, ordered=True)],
+                        ["create", dict(label="h", ordered=True)], ["close", 1], ["close", 0]):
+                for kind in (0, 1):
+                    for ending in ("heal", "stop"):
+                        n += 1
+                        ops = [["create", side, dict(pre)], ["create", side, dict(label="second", ordered=True)],
+                               ["react2", side, kind, 0, act], ["start", "A"], ["start", "B"]]
+                        if ending == "stop":
+                            ops += [["deliver", "B", 0], ["deliver", "A", 0], ["stop", side]]
+                        else:
+                            ops += [["heal"], ["close", side, 0], ["heal"]]
+                        out.append({"tagA": 100 + n, "tagB": 5000 + n, "tsnA": 10 * n, "tsnB": 2**32 - 3 - n,
+                                    "profile": "directed-reentrant", "wrap": False, "ops": ops})
     # id bookkeeping across close and re-use: one side opens channels, either side closes one of them, everything
     # settles, then BOTH sides create channels at the same moment (glare): automatically chosen ids must not collide,
     # freed ids may be used again, every channel opens on both sides
@@ -196,7 +215,7 @@ LIFE2 = dict(S.PROFILES["lifecycle"],
 THRESHOLDS = [0, 0, 1, 5, 10, 100, 1200, 3000, -1, 2**32, 2**32 - 1]
 
 
-def lifecycle_ops(rng, case, n_steps, profile):
+def lifecycle_ops(rng, case, n_steps, profile, reentrant=False):
     """Like sctp_world.random_ops, plus: channels created before start(), close right after create, thresholds,
     stop() in the middle."""
     w = W.World(dict(case, ops=[]))
@@ -235,6 +254,9 @@ def lifecycle_ops(rng, case, n_steps, profile):
             continue
         if rng.random() < 0.05:
             W.arm_reaction(rng, w, name, do)
+            continue
+        if reentrant and rng.random() < 0.06:
+            W.arm_reaction2(rng, w, name, do)
             continue
         if r < 0.45:
             q = w.net[name]
@@ -287,7 +309,7 @@ def lifecycle_ops(rng, case, n_steps, profile):
 
 def _gen13(args):
     seed, profile_name, steps, wrap = args
-    if profile_name != "life2":
+    if profile_name not in ("life2", "life2-reentrant"):
         return S.make_case(random.Random(seed), profile_name, steps, wrap)
     rng = random.Random(seed)
     if wrap:
@@ -295,7 +317,10 @@ def _gen13(args):
     else:
         tsnA, tsnB = rng.randrange(2**32), rng.randrange(2**32)
     case = dict(tagA=rng.randrange(1, 2**32), tagB=rng.randrange(1, 2**32), tsnA=tsnA, tsnB=tsnB)
-    return dict(case, ops=lifecycle_ops(rng, case, steps, LIFE2), profile="life2", wrap=wrap)
+    # "life2-reentrant": application handlers also call close() / create channels from inside events; such runs are outside
+    # the automaton and judged by the oracles only
+    return dict(case, ops=lifecycle_ops(rng, case, steps, LIFE2, reentrant=profile_name == "life2-reentrant"),
+                profile=profile_name, wrap=wrap)
 
 
 class Run13(S.Run):
@@ -389,7 +414,7 @@ def oracle_c13_local(case, run):
         for i, c in enumerate(run.channels[n]):
             if c["id"] is None or c["negotiated"]:
                 continue
-            explicit = c["label"] == "id"
+            explicit = c["label"] in ("id", "hid")
             created_here = not any(ev[0] == "chan" and ev[1] == i for _, ev in run.events[n])
             if created_here and not explicit and (c["id"] % 2) != (1 if n == "A" else 0):
                 return f"endpoint {n}: automatically chosen id {c['id']} has the wrong parity"
@@ -401,7 +426,10 @@ def oracle_c13_local(case, run):
         # (4) association over => every channel closed
         if run.state[n] == "closed":
             for i, c in enumerate(run.channels[n]):
-                if c["ready"] != "closed":
+                # a channel the application created when the association had already ended (e.g. from inside the `close`
+                # handler of another channel) was not there to be closed: not covered by the clause
+                born_closed = next((pub["state"] == "closed" for pub in run.publics[n] if len(pub["channels"]) > i), False)
+                if c["ready"] != "closed" and not born_closed:
                     return f"endpoint {n}: association is closed but channel #{i} id={c['id']} is {c['ready']}"
     # (4) close() closes both ends once the network has healed
     if run.healed and run.state["A"] == "connected" and run.state["B"] == "connected":
@@ -502,7 +530,7 @@ class World(S.WorldComponent):
                 "at_most_one_event", "buffered_exact", "buffered_react", "evLow_exact", "addBuffered_core_react", "closed_all",
                 "negotiated_exact_id", "react_sends_only_when_open", "reactions_one_shot", "flush_fuel_suffices", "reset_deferred",
                 "flushLoop_ids_in_range"]
-    mix = [("life2", False, 4), ("lifecycle", False, 2), ("life2", True, 1), ("mixed-pr", False, 1)]
+    mix = [("life2", False, 4), ("lifecycle", False, 2), ("life2", True, 1), ("mixed-pr", False, 1), ("life2-reentrant", False, 3)]
     quick = (32, 220)
     thorough = (400, 450)
     oracles = [S.oracle_no_crash, oracle_c13_local, oracle_c13_extra, S.oracle_c01, S.oracle_c06]
